@@ -58,6 +58,34 @@ def gen(chk, mpmath, rng):
         mp.prec = p
         n = rng.randint(1, 4)
         kind = rng.random()
+        if rng.random() < 0.2:
+            # complex matrices: Hermitian positive definite Cholesky (A = B B^H + n I, Gaussian integers), complex LU / QR solves by residual
+            from .c31 import cmat
+            try:
+                nn = rng.randint(2, 5)
+                B = mp.matrix([[mp.mpc(rng.randint(-6, 6), rng.randint(-6, 6)) for _ in range(nn)] for _ in range(nn)])
+                if rng.random() < 0.5:
+                    H = B * B.H + nn * mp.eye(nn)                   # exact: small integers
+                    L = mp.cholesky(H)
+                    Le, He = cmat(L), cmat(H)
+                    R = ex.cmatsub(ex.cmatmul(Le, ex.cconjT(Le)), He)
+                    struct = [ex.eq(ex.c_of(L[r, c])[0], 0) for r in range(nn) for c in range(r + 1, nn)] + [ex.eq(ex.c_of(L[r, c])[1], 0) for r in range(nn) for c in range(r + 1, nn)]
+                    struct += [ex.eq(ex.c_of(L[r, r])[1], 0) for r in range(nn)] + [ex.lt(0, ex.c_of(L[r, r])[0]) for r in range(nn)]
+                    yield ex.allj(ex.le(ex.cmaxabs2(R), ex.mul(ex.pow2(2 * (10 - p)), ex.cmaxabs2(He), nn * nn)), *struct), \
+                        {"key": "cholesky/hermitian", "B": str(B), "p": p, "what": "L*L^H != A for a Hermitian positive definite A, or L is not lower triangular with a real positive diagonal"}
+                else:
+                    for d in range(nn):
+                        B[d, d] += 15
+                    bv = mp.matrix([mp.mpc(rng.randint(-9, 9), rng.randint(-9, 9)) for _ in range(nn)])
+                    meth = rng.choice(["lu_solve", "qr_solve", "inverse*b"])
+                    x = mp.lu_solve(B, bv) if meth == "lu_solve" else (mp.qr_solve(B, bv)[0] if meth == "qr_solve" else mp.inverse(B) * bv)
+                    Be, xe, be = cmat(B), cmat(x), cmat(bv)
+                    R = ex.cmatsub(ex.cmatmul(Be, xe), be)
+                    yield ex.le(ex.cmaxabs2(R), ex.mul(ex.pow2(2 * (10 - p)), ex.cmaxabs2(Be), ex.mx(ex.cmaxabs2(xe), 1), nn ** 4)), \
+                        {"key": "solve-complex/" + meth, "A": str(B), "b": str(bv), "p": p, "what": "residual A x - b of a complex solve exceeds n^2 |A| |x| 2^(10-p)"}
+            except (ZeroDivisionError, ValueError, TypeError):
+                yield None
+            continue
         A = [[Fr(rng.randint(-9, 9), rng.choice([1, 1, 2, 4])) for _ in range(n)] for _ in range(n)]
         for d in range(n):
             A[d][d] += rng.choice([-1, 1]) * rng.randint(4, 12)        # moderate condition
